@@ -386,6 +386,12 @@ func TestC20CLI(t *testing.T) {
 						h := lang.Hash()
 						for i, n := 0, rapid.IntRange(0, 2).Draw(rt, "hm"); i < n; i++ {
 							k := lang.Str(hostile[gen.Uniform(rt, "hkey", len(hostile))])
+							switch gen.Uniform(rt, "hkeykind", 4) {
+							case 0:
+								k = lang.Int(rapid.SampledFrom([]int64{0, 1, -1, 404, 70000}).Draw(rt, "hkeyint"))
+							case 1:
+								k = lang.Float(rapid.SampledFrom([]float64{0.5, 2.5, -1.25, 1e21}).Draw(rt, "hkeyfloat"))
+							}
 							if _, dup := h.Lookup(k); !dup {
 								h.H = append(h.H, lang.Pair{K: k, V: mk(d - 1)})
 							}
